@@ -75,9 +75,14 @@ impl TryFrom<&SnmpOid<'_>> for String {
         // where X is 0, 1 or 2 and Y is not limited when X is 2.
         // It may take several octets.
         let mut is_first = true;
-        let mut b = 0u32;
+        let mut b = 0u64;
         for c in value.0.iter() {
-            b = (b << 7) + ((*c as u32) & 0x7f);
+            b = (b << 7) + ((*c as u64) & 0x7f);
+            if b > u32::MAX as u64 {
+                // Subidentifiers are limited to 32 bits (RFC 2578 pp 3.5),
+                // do not wrap silently
+                return Err(SnmpError::InvalidData);
+            }
             if c & 0x80 == 0 {
                 if is_first {
                     let (x, y) = match b {
